@@ -8,7 +8,7 @@
    [new_reader (finalize w) = Some r] : NewReader on the sections Finalize produced;  theorem 4 says
    that going through the byte image changes nothing ([finalize_reader]). *)
 From Coq Require Import NArith List Lia.
-Require Import Pk.IndexFormat Pk.IndexFormatCodec Pk.IndexFormatHosts Pk.IndexFormatWriter Pk.IndexFormatData Pk.IndexFormatPackets Pk.IndexFormatLookup Pk.IndexFormatScan Pk.IndexFormatAccepts Pk.IndexFormatRefuted.
+Require Import Pk.IndexFormat Pk.IndexFormatCodec Pk.IndexFormatHosts Pk.IndexFormatWriter Pk.IndexFormatData Pk.IndexFormatPackets Pk.IndexFormatLookup Pk.IndexFormatScan Pk.IndexFormatAccepts Pk.IndexFormatTimes Pk.IndexFormatRefuted.
 Import ListNotations.
 Open Scope N_scope.
 
@@ -149,6 +149,23 @@ Theorem C01_data_of_stored_stream : forall gcap L w r,
                 payload_dir false cks = stream_payload s false /\ payload_dir true cks = stream_payload s true /\
                 compress (map c_dir cks) = compress (nz_dirs (data_runs (s_packets s) (s_data s))).
 Proof. exact data_stored. Qed.
+
+(* The Time field of the Data() chunks.  carries s q: q is a packet of s whose data item is not empty.
+   Proved: for streams of ANY duration (the time-wrap bookkeeping of the first loop of Data(): expectWraps,
+   lastRelPacketTimeMS, skipping only once no further wrap is expected) every chunk carries the microsecond-truncated
+   timestamp of a data-carrying packet of the chunk's direction.
+   _partial, missing: WHICH packet - the statement that it is the first packet of the chunk's group, a group being a
+   maximal run of data packets of one direction whose consecutive timestamps are less than 50 ms apart (cut again at
+   direction-run boundaries of the segmentation).  The correspondence run compares exactly that on every case. *)
+Theorem C01_data_chunk_times_partial : forall gcap L w r,
+  16 < gcap <= 4 * P16 ->
+  Forall (fun ids => wf_meta (snd ids)) L ->
+  add_streams gcap new_writer L = Some w -> new_reader (finalize w) = Some r -> lenN (w_packets w) < P32 ->
+  forall k id s rec cks, nth_error L k = Some (id, s) -> wf_packets s -> wf_data s ->
+    nth_error (all_streams r) k = Some rec -> data r rec = Some cks ->
+    Forall (fun c => exists q, In q (s_packets s) /\ p_dir q = c_dir c /\ carries s q /\
+                               c_ts c = first_ts s + ((p_ts q - first_ts s) / 1000) * 1000) cks.
+Proof. exact data_chunk_times. Qed.
 
 (* component: the first loop of Data() with sound skip counters collects exactly the data sizes per direction *)
 Theorem C01_data_scan_totals : forall fuel ps expect reft lastrel prev ptc pts,
